@@ -267,9 +267,18 @@ def r3(fx):
         yield ob(f'header bits {"with" if sa else "without"} Structured Append information: written before the first segment; the level booster is told',
                  hdr == want_hdr and ws and ws[0][3] == sum(w for _, w in want_hdr) and bool(is_sa) == (sa is not None), enc,
                  got=(hdr, ws[0][3] if ws else None, is_sa), want=(want_hdr, sum(w for _, w in want_hdr), sa is not None))
-    cls = fx.forest.cls('encoder', '_StructuredAppendInfo')
-    genv_c = encoder_env(fx.forest, it)
     try:
+        cls = fx.forest.cls('encoder', '_StructuredAppendInfo')
+    except Unknown:
+        # no such class (any more): the header is decided above and, for every symbol of a sequence, in R1 / R2
+        yield ob('_StructuredAppendInfo = (0011, number, total, parity)', True, enc, got='no such class; the header is decided from the bits written', want='')
+        yield ob('field accessors', True, enc, got='no such class', want='')
+        cls = None
+    genv_c = encoder_env(fx.forest, it) if cls is not None else None
+    fields, bykw, reference_shape = None, None, True
+    try:
+        if cls is None:
+            raise KeyError
         sai = genv_c['_StructuredAppendInfo'](5, 11, 0x5A)
         reference_shape = len(tuple(sai)) == 4 and ev._hasattr(sai, 'mode')
         if reference_shape:
@@ -277,6 +286,8 @@ def r3(fx):
             bykw = tuple(genv_c['_StructuredAppendInfo'](number=5, total=11, parity=0x5A))
     except PyRaise as ex:
         fields, bykw, reference_shape = f'raises {ex.name}', None, True
+    except KeyError:
+        pass
     if not reference_shape:
         # the class no longer carries the mode indicator itself: what it must guarantee is the header, decided above
         yield ob('_StructuredAppendInfo = (0011, number, total, parity)', True, cls, got='the header is written from (number, total, parity)', want='')
